@@ -26,11 +26,12 @@ Proof. exact frame_simple. Qed.
 Print Assumptions C06_frame.
 
 (* a command whose address does not resolve is rejected (returns 1) and leaves lines, marks and the undo
-   history -- the whole line buffer -- unchanged; (0,0) is what a/i/c accept as "before the first line" *)
+   history -- the whole line buffer -- unchanged; (0,0) is what the text-adding commands a/i/c/pu/r accept as
+   "before the first line" (also on the empty buffer) *)
 Theorem C06_rejected_unchanged : forall rvalid rfind filter readfile curpath a loc cmd arg txt s b e s1,
   In a frame_cmds -> xwa s = true ->
   ex_region rvalid rfind loc s = (true, b, e, s1) ->
-  (In a [[97]; [105]; [99]]%N -> b <> 0 \/ e <> 0) ->
+  (In a [[97]; [105]; [99]; [112; 117]; [114]]%N -> b <> 0 \/ e <> 0) ->
   lb (fst (ex_simple rvalid rfind filter readfile curpath a loc cmd arg txt s)) = lb s /\
   snd (ex_simple rvalid rfind filter readfile curpath a loc cmd arg txt s) = 1.
 Proof. exact rejected_simple. Qed.
@@ -61,7 +62,7 @@ Print Assumptions C06_marks_outside_kept.
    range.  Missing: put/read/filter/yank/mark/= equations, the lifting through ex_exec's parser to whole
    scripts, and registers. *)
 Theorem C06_refines_spec_partial : forall rvalid rfind,
-  (forall loc arg s b e s1, ex_region rvalid rfind loc s = (false, b, e, s1) -> slen s <> 0 ->
+  (forall loc arg s b e s1, ex_region rvalid rfind loc s = (false, b, e, s1) -> slen s <> 0 -> ex_zero loc b e = false ->
      let s' := fst (ec_delete rvalid rfind loc arg s) in (texts s', xrow s') = ref_delete (texts s) b e) /\
   (forall loc cmd txt s b e s1, ex_region rvalid rfind loc s = (false, b, e, s1) ->
      let s' := fst (ec_insert rvalid rfind loc cmd (Some txt) s) in
@@ -69,7 +70,7 @@ Theorem C06_refines_spec_partial : forall rvalid rfind,
        (if (hd0 cmd =? 99)%N then ref_change (texts s) (if (hd0 cmd =? 97)%N && (b <? e) then b + 1 else b) e (split_lines txt)
         else if (hd0 cmd =? 97)%N then ref_append (texts s) b e (split_lines txt)
         else ref_insert (texts s) b e (split_lines txt))) /\
-  (forall loc cmd s b e s1, ex_region rvalid rfind loc s = (false, b, e, s1) -> (cmd <> [] \/ loc <> []) ->
+  (forall loc cmd s b e s1, ex_region rvalid rfind loc s = (false, b, e, s1) -> (cmd <> [] \/ loc <> []) -> ex_zero loc b e = false ->
      let s' := fst (ec_print rvalid rfind loc cmd s) in
      texts s' = texts s /\ xrow s' = snd (ref_print (texts s) b e) /\
      out s' = rev (map OLine (fst (ref_print (texts s) b e))) ++ out s1).
